@@ -26,7 +26,7 @@ func (Driver) Info() core.Info {
 			"(list/set/tuple and map/object kind changes, primitive changes, dropped / added-optional / added-required / marked-optional attributes incl. nested optional object types, placeholders, capsule targets, unrelated parts), " +
 			"the own type, unrelated types, a few fixed targets. Every case runs GetConversion, GetConversionUnsafe, Convert, both returned conversions, a second Convert of the result, the inverse Convert for lossless pairs, and the " +
 			"conversion obtained for a dynamic source; half of the cases are pairs (known value, admitting weakening of it) converted to the same target and compared with mon.Admits. " +
-			"Plus: every ordered pair of a fixed 47-type pool x 5..8 fixed values per source type (exhaustive), a fixed catalogue x every single-position weakening, and a corpus with the witnesses of F-29..F-32. " +
+			"Plus: every ordered pair of a fixed 47-type pool x 5..8 fixed values per source type (exhaustive), every tuple/object type of 2..3 members from a 21-type pool against 7 collection targets with placeholder element types (exhaustive; known value next to the unknown value of the type), a fixed catalogue x every single-position weakening, and a corpus with the witnesses of F-29..F-32. " +
 			"distinct = hash of (value, target); non-trivial = a conversion to a type other than the value's own was offered and succeeded",
 		Assumptions: []string{
 			"'equal' is mon.ModelEqual (documented equality; whole numbers compared exactly; unknowns by type and range; marks ignored); for values that are not wholly known the round trip must give a value that admits the original (mon.Admits)",
@@ -213,7 +213,8 @@ func checkPair(c *core.Ctx, r *core.Rand, v cty.Value, Tn *m.TNode, label string
 		c.Count("offered:none")
 	}
 	if safe != nil && unsafe == nil {
-		c.Violate(siteSafe, fSafeNotUnsafe, cls, desc(), "GetConversion != nil, GetConversionUnsafe == nil")
+		// the lookups do not see the value: class = kinds and target features only
+		c.Violate(siteSafe, fSafeNotUnsafe, typeClass(S, Tn), desc(), "GetConversion != nil, GetConversionUnsafe == nil")
 	}
 	c.Count("clause:safe-implies-unsafe")
 
@@ -442,6 +443,17 @@ func checkPair(c *core.Ctx, r *core.Rand, v cty.Value, Tn *m.TNode, label string
 	return out
 }
 
+func typeClass(S, T *m.TNode) string {
+	s := S.K.String() + ">" + T.K.String()
+	if m.HasOptional(T) {
+		s += " opt"
+	}
+	if m.HasDynamic(T) {
+		s += " dyn"
+	}
+	return s
+}
+
 func hasOwnCapsule(t *m.TNode) bool {
 	switch t.K {
 	case m.KCapsule:
@@ -612,6 +624,7 @@ func (Driver) Run(c *core.Ctx) {
 		checkRelational(c, r, conc, abs, Tn, label)
 	}
 	runPairs(c, 1_000_000_000)
+	runStructural(c, 4_000_000_000)
 	if c.Batch == 0 {
 		runCorpus(c, 2_000_000_000)
 		runCatalogue(c, 3_000_000_000)
